@@ -319,15 +319,17 @@ def build_correspondence(report, pid, rng, drv, n, values, malformed_every=4):
     """Histories of addfilter/updatefilter/disable/enable/move/remove with generated definitions, run on FiltersSet and on
     the extracted model of __create_filter / FiltersSet.tosieve: return values, exception classes, rendered text, requires."""
     from sievelib import factory, commands
-    names = ["f1", "f2", "f3"]
+    # few names, so that a filter is often disabled and then updated / renamed, added again after a removal, ...
+    names = ["f1", "f1", "f1", "f2", "f2", "f3"]
     for i in range(n):
         fs = factory.FiltersSet("t")
         drv.ask("bnew")
         commands.RequireCommand.loaded_extensions = []
         hist = []
         ok = True
-        for step in range(rng.randrange(1, 7)):
-            kind = rng.choice(["add", "add", "add", "update", "disable", "enable", "move", "remove"])
+        nsteps = rng.randrange(1, 9)
+        for step in range(nsteps):
+            kind = "add" if step == 0 else rng.choice(["add", "add", "update", "update", "update", "disable", "disable", "enable", "move", "remove"])
             nm = rng.choice(names)
             stop = False
             if kind in ("add", "update"):
@@ -434,9 +436,9 @@ def read_correspondence(report, pid, rng, drv, n, values):
         commands.RequireCommand.loaded_extensions = []
         hist = []
         ok = True
-        for step in range(rng.randrange(1, 5)):
-            kind = rng.choice(["add", "add", "update", "disable", "enable"])
-            nm = rng.choice(names)
+        for step in range(rng.randrange(1, 7)):
+            kind = "add" if step == 0 else rng.choice(["add", "update", "update", "disable", "disable", "enable"])
+            nm = rng.choice(["f1", "f1", "f1", "f2"])
             if kind in ("add", "update"):
                 conds = [gen_condition(rng, values) for _ in range(rng.randrange(1, 4))]
                 acts = [gen_action(rng, values) for _ in range(rng.randrange(1, 3))]
